@@ -43,6 +43,7 @@ Fixpoint eqb_resps (a b : list resp) : bool :=
 Definition wf_dgram (d : dgram) : bool :=
   match d_body d with
   | BCmd _ (PData fn _) => N.leb 11 fn
+  | BCmd _ (PResult _) => false       (* a resultData element belongs to the classifier result: no verdict *)
   | _ => true
   end.
 
@@ -167,10 +168,18 @@ Definition answer (s : st) (p : N) (lf : lfeat) (c : cls) (pl : payload) : optio
   | _ => None
   end.
 
+(* C02 / C04: an admitted write is still rejected by the data model when it asks for a partial update of a
+   function whose type has no partial updates *)
+Definition data_model_takes (d : dgram) (c : cls) (pl : payload) : bool :=
+  match c with
+  | CWrite => N.eqb (d_sel d) 0 || fn_partial (pl_fn pl)
+  | _ => true
+  end.
+
 (* ------------------------------------------------------------------ the table *)
 Definition prescribed (s : st) (pe : peer) (en : rent) (rf : rfeat) (d : dgram) : list resp :=
   match d_body d with
-  | BResult _ => []                                       (* never any result in answer to a result *)
+  | BResult _ | BResultWith _ => []                       (* never any result in answer to a result, whatever its cmd carries *)
   | BCmd c pl =>
       match local_feature s (d_dst d) with
       | None => [RErr]                                    (* the destination feature does not exist *)
@@ -179,7 +188,7 @@ Definition prescribed (s : st) (pe : peer) (en : rent) (rf : rfeat) (d : dgram) 
           match c with
           | CRead => match ans with Some (fn, v) => [RReply fn v] | None => [RErr] end
           | _ => match ans with Some (fn, v) => [RReply fn v] | None => [] end ++
-                 (if accepted s pe en rf lf c pl
+                 (if accepted s pe en rf lf c pl && data_model_takes d c pl
                   then (if d_ack d then [ROk] else [])
                   else [RErr])
           end
